@@ -421,6 +421,86 @@ where
             sc.state.insert(key, b);
             Some(out)
         }
+        "substids" => {
+            // substids <threads> <iters> f v : <threads> threads create substitution objects at the
+            // same time (spin barrier per iteration); identifiers must be pairwise distinct (they
+            // are the apply-cache key of `substitute`), and two substitutions that received the
+            // same identifier are applied to f one after the other to show the wrong result
+            let threads: usize = w[1].parse().ok()?;
+            let iters: usize = w[2].parse().ok()?;
+            let (f, tf) = sc.get(w[3]).map(|(f, t)| (f.clone(), t.clone()))?;
+            let v: u32 = w[4].parse().ok()?;
+            // replacement of thread t: distinct functions from the handle table (sorted by name)
+            let mut names: Vec<&String> = sc.h.keys().collect();
+            names.sort();
+            let reps: Vec<(K::F, TT)> = names.iter().take(threads.max(2)).map(|k| (sc.h[*k].clone(), sc.tt[*k].clone())).collect();
+            if reps.len() < 2 {
+                return None;
+            }
+            use oxidd_core::util::Substitution;
+            use std::sync::atomic::{AtomicUsize, Ordering};
+            let gate = AtomicUsize::new(0);
+            let made: Vec<Vec<Subst<K::F>>> = std::thread::scope(|scope| {
+                let hs: Vec<_> = (0..threads)
+                    .map(|t| {
+                        let rep = reps[t % reps.len()].0.clone();
+                        let gate = &gate;
+                        scope.spawn(move || {
+                            let mut out = Vec::with_capacity(iters);
+                            for i in 0..iters {
+                                // spin barrier: all threads enter iteration i together
+                                gate.fetch_add(1, Ordering::AcqRel);
+                                while gate.load(Ordering::Acquire) < (i + 1) * threads {
+                                    std::hint::spin_loop();
+                                }
+                                out.push(Subst::new(vec![v], vec![rep.clone()]));
+                            }
+                            out
+                        })
+                    })
+                    .collect();
+                hs.into_iter().map(|h| h.join().unwrap()).collect()
+            });
+            let mut seen: std::collections::HashMap<u32, (usize, usize)> = std::collections::HashMap::new();
+            let mut dup: Option<((usize, usize), (usize, usize))> = None;
+            let mut ndup = 0;
+            for (t, ss) in made.iter().enumerate() {
+                for (i, s_) in ss.iter().enumerate() {
+                    if let Some(&prev) = seen.get(&(&*s_).id()) {
+                        ndup += 1;
+                        if dup.is_none() && reps[prev.0 % reps.len()].1 != reps[t % reps.len()].1 {
+                            dup = Some((prev, (t, i)));
+                        }
+                    } else {
+                        seen.insert((&*s_).id(), (t, i));
+                    }
+                }
+            }
+            ctx.add("substids_created", (threads * iters) as u64);
+            if ndup > 0 {
+                let mut msg = format!("{} of {} substitution objects created concurrently by {} threads received an identifier that another live substitution already has", ndup, threads * iters, threads);
+                if let Some(((t1, i1), (t2, i2))) = dup {
+                    let n = sc.n;
+                    let expect = |rt: &TT| {
+                        TT::from_fn(n, |a| {
+                            let a2 = if rt.get(a) { a | (1 << v) } else { a & !(1 << v) };
+                            tf.get(a2)
+                        })
+                    };
+                    let r1 = f.substitute(&made[t1][i1]);
+                    let r2 = f.substitute(&made[t2][i2]);
+                    if let (Ok(r1), Ok(r2)) = (r1, r2) {
+                        let (a1, a2) = (sc.actual_tt(&r1, ctx, "substitute"), sc.actual_tt(&r2, ctx, "substitute"));
+                        let (e1, e2) = (expect(&reps[t1 % reps.len()].1), expect(&reps[t2 % reps.len()].1));
+                        if a1 != e1 || a2 != e2 {
+                            msg += &format!("; applying the two to {}: results {} and {}, expected {} and {}", tf.hex(), a1.hex(), a2.hex(), e1.hex(), e2.hex());
+                        }
+                    }
+                }
+                ctx.fail("substitution-id-not-unique", &msg);
+            }
+            Some("ok".into())
+        }
         "dropsubst" => {
             sc.state.remove(&format!("subst-{}", w[1]))?;
             Some("ok".into())
@@ -694,6 +774,12 @@ impl<K: Kind> crate::Scenario for Capped<K> {
             self.capped.state.insert("ballast".into(), Box::new(pool));
             return "ok".into();
         }
+        if w[0] == "rcchk" {
+            // how many collections (explicit and by the gc thread) the capped manager has seen
+            let k = self.capped.mref().with_manager_shared(|m| m.gc_count());
+            let e = ctx.stats.entry("capped_gc_count_max".into()).or_insert(0);
+            *e = (*e).max(k);
+        }
         let out_ref = self.reference.step(line, ctx);
         let mut sub = Ctx { line_no: ctx.line_no, case: ctx.case.clone(), failures: Vec::new(), stats: std::collections::BTreeMap::new(), extra: ctx.extra.clone() };
         let out_cap = self.capped.step(line, &mut sub);
@@ -707,7 +793,10 @@ impl<K: Kind> crate::Scenario for Capped<K> {
             // the error is legitimate only if the store really is full (single-threaded managers
             // allocate deterministically; with worker threads per-thread chunks may be reserved)
             let (inner, _) = self.capped.mref().with_manager_shared(|m| (m.num_inner_nodes(), m.num_levels()));
-            if self.threads == 1 && inner < self.cap {
+            // (capacities >= 100 enable the background collector: an allocation can then fail while
+            // the gc thread is still sweeping or has not handed its freed slots back yet, and the
+            // count read afterwards is already smaller; the test is exact only without it)
+            if self.threads == 1 && self.cap < 100 && inner < self.cap {
                 ctx.fail("spurious-oom", &format!("`{}` reported out of memory although only {} of {} node slots are in use", line, inner, self.cap));
             }
             // the manager is intact: structure, reference counts, all existing handles
